@@ -113,6 +113,9 @@ pub fn judge(steps: &[Step], cache: bool, stats: &mut Stats) -> Vec<(String, Str
     }
     for (k, r) in h.results.iter().enumerate() {
         let s = &steps[k];
+        if r.clock_reads > 0 {
+            stats.add("probe:clock_reads", r.clock_reads);
+        }
         if matches!(r.res, Res::Panic(_)) {
             stats.inc("probe:panicking_predecessor");
         }
@@ -213,6 +216,8 @@ fn draw_steps(rng: &mut Rng, index: u64) -> Vec<Step> {
             thread: threads && rng.chance(1, 3),
             subject: as_subject,
             fastrand_seed: None,
+            // every compilation of a history runs under its own clock (the reference under REF_CLOCK)
+            clock: Some(crate::hist::draw_clock(rng)),
         });
     }
     steps
